@@ -1233,7 +1233,3 @@ func TestStressChild(t *testing.T) {
 		}
 	}
 }
-
-func rapidExample(seed int) scenarioT {
-	return rapid.Custom(genScenario).Example(seed)
-}
